@@ -193,6 +193,46 @@ func safetyFamily(tier string, amevs []int64) []*Job {
 			jobs = append(jobs, job(sc, per))
 		}
 	}
+	// B12m: the equivocating primary gives one backup a proposal with a transaction that backup lacks and fetches
+	// slowly, so the commits of the others (for the other proposal) are there before the node can build its own block
+	for _, a := range amevs {
+		if a > 0 {
+			continue
+		}
+		b := primaryAt(start+1, 0, 4)
+		var hon []int
+		for i := 0; i < 4; i++ {
+			if i != b {
+				hon = append(hon, i)
+			}
+		}
+		for vi, victim := range hon {
+			rest, all := 0, 0
+			for _, i := range hon {
+				all |= 1 << i
+				if i != victim {
+					rest |= 1 << i
+				}
+			}
+			sc := scen(fmt.Sprintf("B12m-equivocating-primary%d-victim%d-slow-tx-N4-%s", b, victim, amevName(a)), 4, withAMEV(a), withKind(b, kByz), withK(1), withMissing(victim, 101))
+			sc.Dev.Dup, sc.Dev.Stale, sc.Dev.Perm = false, false, false
+			sc.TxLast = true
+			// the primary's own (pre)commits go to the others only; whatever it sends to the slow backup is a deviation
+			// (for instance its valid commit for the backup's proposal once the transaction has arrived)
+			sc.ByzScript = []ByzStep{{"proposal B", 0, rest}, {"proposal A", 0, 1 << victim}, {"commit for proposal B", 0, rest}}
+			if a >= 0 {
+				sc.ByzScript = append(sc.ByzScript, ByzStep{"precommit for proposal B", 0, rest})
+			}
+			_ = all
+			_ = vi
+			jobs = append(jobs, job(sc, per))
+		}
+		// honest primary, one backup fetches a missing transaction slowly
+		bk := (b + 2) % 4
+		st := scen(fmt.Sprintf("B3-missing-tx-n%d-slow-N4-%s", bk, amevName(a)), 4, withAMEV(a), withMissing(bk, 101), withK(2))
+		st.TxLast = true
+		jobs = append(jobs, job(st, per))
+	}
 	// other validator counts, fault-free
 	for _, n := range []int{1, 2, 3, 5, 6, 7} {
 		k := 2
